@@ -1587,3 +1587,50 @@ Proof.
   intros x Hx Ha. unfold sc_in_text, sc_ahead in *.
   apply fd_not_succeeds_fails. intros Hsx. specialize (Hmin x Hx Hsx). lia.
 Qed.
+
+(* ====================================================================================
+   plugging facts in: pointwise forms, and the whole default finder in the scan loop
+   ==================================================================================== *)
+
+(* "the text at q starts with P" stated rune by rune *)
+Lemma fd_prefix_fact_pointwise : forall (R : Type) (text : list Z) (exec : Z -> option R * Z) eqc P,
+  (forall q, 0 <= q <= zlen text -> fd_succeeds R exec q ->
+     q + zlen P <= zlen text /\
+     forall j, 0 <= j < zlen P -> eqc (nth (Z.to_nat (q + j)) text 0) (nth (Z.to_nat j) P 0) = true) ->
+  fd_prefix_fact R text exec eqc P.
+Proof.
+  intros R text exec eqc P H q Hq Hs. destruct (H q Hq Hs) as [Hlen Hall].
+  apply fd_prefix_match_intro.
+  - rewrite fd_zlen_skipn by lia. lia.
+  - intros j Hj. rewrite fd_nth_skipn_Z by lia. apply Hall. exact Hj.
+Qed.
+
+(* the fixed-distance-set fact from plain Set membership, when Chars / Range abbreviate the Set exactly *)
+Definition fd_fds_abbrev_ok (set_in : Z -> Z -> bool) (s : fdset) : Prop :=
+  exists id, fs_set s = Some id /\ forall c, fd_char_in_fds set_in s c = set_in id c.
+
+Lemma fd_fds_fact_of_sets : forall (R : Type) (text : list Z) (exec : Z -> option R * Z) set_in sets,
+  (forall s, In s sets -> fd_fds_abbrev_ok set_in s) ->
+  (forall q, 0 <= q <= zlen text -> fd_succeeds R exec q -> forall s id, In s sets -> fs_set s = Some id ->
+     0 <= q + fs_distance s < zlen text /\ set_in id (nth (Z.to_nat (q + fs_distance s)) text 0) = true) ->
+  fd_fds_fact R text exec set_in sets.
+Proof.
+  intros R text exec set_in sets Hab H q Hq Hs s Hin.
+  destruct (Hab s Hin) as (id & Hid & Heq). destruct (H q Hq Hs s id Hin Hid) as [H1 H2].
+  split; [exact H1|]. rewrite Heq. exact H2.
+Qed.
+
+(* the whole findFirstCharDefault in the scan loop *)
+Theorem fd_default_scan_sound : forall (R : Type) (text : list Z) (exec : Z -> option R * Z)
+    (set_in : Z -> Z -> bool) (lower : Z -> Z) (rtl : bool) (anchors ts : Z)
+    (bm : option (Z -> bool)) (bm_scan : option (Z -> Z)) (o : option fdopts) (fc : option fdfc) (minreq : Z),
+  let n := zlen text in
+  let F := fd_total (fd_find_first_char_default text set_in lower rtl anchors ts bm bm_scan o fc) in
+  sc_H1_true R n rtl F exec -> sc_H1_false R n rtl F exec ->
+  sc_H2 R n rtl minreq exec -> sc_H3 R n rtl exec ->
+  forall start prevlen, 0 <= start <= n ->
+  exists r, scan n rtl minreq F exec start prevlen = Ok r /\ naive_scan n rtl exec start prevlen = Ok r.
+Proof.
+  intros R text exec set_in lower rtl anchors ts bm bm_scan o fc minreq n F H1t H1f H2 H3 start prevlen Hs.
+  apply sc_scan_finder_sound; assumption.
+Qed.
